@@ -80,3 +80,23 @@ def c03(ctx):
     cov, mn = P.generic_harness_check(ctx, "C02_matrix", rule, MATRIX_ASSUME, extra_link="", extra_args=["--prop", "C03"], exhaustive=True,
                                       min_nontrivial={"quick": 5000, "thorough": 5000})
     return P.finish(ctx, "exploration", cov, MATRIX_ASSUME, mn)
+
+
+# ---------------------------------------------------------------- C01
+harness_job("C01_forge")
+std_replayer("C01", "C01_forge")
+
+
+@P.check("C01")
+def c01(ctx):
+    """forgery search: mutated/adversarially assembled tokens vs an independent verifier; + raw-text fuzzing"""
+    rule = ("rapidcheck: (provider, key, admissible alg, checker config in {explicit alg, key alg, both, callback}, payload, 0-3 mutation steps from 22 operators: "
+            "char/bit flips, raw bytes, signature truncation/extension/padding junk, empty/zero/random/wrong-length signatures, signature of another token / "
+            "another key / another alg, ECDSA specials (r,s in {0,n}, (r,n-s), re-padded or stripped r||s), EdDSA S+L, RSA zero byte, header alg swap with "
+            "kept / empty-key-HMAC / public-PEM-HMAC / real-key signatures, payload change, part swaps, header re-encoding, std alphabet). "
+            "Oracle: verify==0 => reference verifier accepts (lenient base64, header alg's algorithm, exact signing input). "
+            "Non-trivial = the case reached signature evaluation (accepted, or rejected by the crypto layer); distinct by hash of (token, provider, key, alg, config).")
+    assumptions = ["reference verifier in vkeys.h on raw OpenSSL EVP decides validity (PSS: any salt length; ECDSA: fixed-width r||s)",
+                   "structural forgeries only; primitives are trusted"]
+    cov, mn = P.generic_harness_check(ctx, "C01_forge", rule, assumptions, min_nontrivial={"quick": 5000, "thorough": 50000})
+    return P.finish(ctx, "exploration", cov, assumptions, mn)
